@@ -14,6 +14,7 @@ import (
 	"encoding/json"
 	"errors"
 	"fmt"
+	"strings"
 	"sync"
 	"testing"
 	"time"
@@ -120,6 +121,42 @@ func runC17(c c17Case) *Violation {
 			return violf("stream-broken-by-keepalive", "paced stream over %v delivered %d of 8 values (closed=%v) on a healthy link", dur, len(items), closed)
 		}
 		return healthy()
+	case "blackhole_fresh_steady":
+		// the peer falls silent right after the connection was established (nothing received on it yet) while the
+		// application keeps issuing calls more often than the timeout
+		t0 := time.Now()
+		rig.Proxy.CutAll("blackhole")
+		bound := 5*T + 2*time.Second
+		var ps []*Pending
+		stop := make(chan struct{})
+		var mu sync.Mutex
+		go func() {
+			for {
+				select {
+				case <-stop:
+					return
+				case <-time.After(T / 4):
+				}
+				mu.Lock()
+				ps = append(ps, rig.Go(cl, "call", rig.Tok("steady"), Plan{}))
+				mu.Unlock()
+			}
+		}()
+		defer close(stop)
+		first := rig.Go(cl, "call", rig.Tok("first"), Plan{})
+		select {
+		case <-first.Done:
+		case <-time.After(bound):
+			return violf("silent-peer-not-detected", "the peer fell silent right after connecting; with calls issued every %v the first call had not failed after %v (timeout %v, ping %v)", T/4, bound, T, ping)
+		}
+		deadline := t0.Add(bound)
+		for time.Now().Before(deadline) {
+			if len(rig.Proxy.Accepts()) >= 2 {
+				return nil
+			}
+			time.Sleep(5 * time.Millisecond)
+		}
+		return violf("no-redial-after-silence", "the peer fell silent right after connecting but no redial reached the proxy within %v", bound)
 	case "blackhole_pending", "blackhole_idle":
 		var ps []*Pending
 		if c.Scenario == "blackhole_pending" {
@@ -202,7 +239,7 @@ func c17NT(c c17Case) (bool, []string) {
 	if c.Factor > 1 {
 		cl = append(cl, "longer_than_timeout")
 	}
-	return c.Factor > 1 || c.Scenario == "blackhole_pending" || c.Scenario == "blackhole_idle", cl
+	return c.Factor > 1 || strings.HasPrefix(c.Scenario, "blackhole"), cl
 }
 
 const c17Rule = "client timeout 600-1500 ms with ping = timeout/4..timeout/8, server ping off or timeout/8..timeout/2.2; scenarios: one call lasting 0.1-3 x timeout, a call plus a paced stream, idleness of 0.5-3 x timeout followed by a call, a paced stream lasting 1.5-3 x timeout, blackhole with three calls pending, blackhole while idle followed by a call. Scenarios of the fixed grid run concurrently (each on its own server, proxy and client). Non-trivial = duration above the timeout, or a blackhole; distinct by descriptor hash"
@@ -210,7 +247,7 @@ const c17Rule = "client timeout 600-1500 ms with ping = timeout/4..timeout/8, se
 func TestC17(t *testing.T) {
 	rec := NewRec("C17", c17Rule)
 	defer rec.Finish(t)
-	rec.RequireClass("scenario_long_call", "scenario_idle_then_call", "scenario_stream", "scenario_mixed", "scenario_blackhole_pending", "scenario_blackhole_idle", "server_ping_off", "server_ping_on", "longer_than_timeout")
+	rec.RequireClass("scenario_blackhole_fresh_steady", "scenario_long_call", "scenario_idle_then_call", "scenario_stream", "scenario_mixed", "scenario_blackhole_pending", "scenario_blackhole_idle", "server_ping_off", "server_ping_on", "longer_than_timeout")
 	var mu sync.Mutex
 	var firstV *Violation
 	var firstC c17Case
@@ -233,7 +270,7 @@ func TestC17(t *testing.T) {
 		var cases []c17Case
 		k := 0
 		seed := envInt("VERIF_SEED", 1)
-		for _, sc := range []string{"long_call", "mixed", "idle_then_call", "stream", "blackhole_pending", "blackhole_idle"} {
+		for _, sc := range []string{"long_call", "mixed", "idle_then_call", "stream", "blackhole_pending", "blackhole_idle", "blackhole_fresh_steady"} {
 			for _, f := range []float64{0.3, 1.6, 3.0} {
 				for _, spOn := range []bool{false, true} {
 					k++
@@ -272,7 +309,7 @@ func TestC17(t *testing.T) {
 	rec.Rapid(t, "rapid", func(rt *rapid.T) {
 		T := rapid.SampledFrom([]int{600, 800, 1000, 1500}).Draw(rt, "timeout")
 		c := c17Case{TimeoutMs: T, PingDiv: rapid.IntRange(4, 8).Draw(rt, "pingdiv"), ServerPingMs: -1,
-			Scenario: rapid.SampledFrom([]string{"long_call", "mixed", "idle_then_call", "stream", "blackhole_pending", "blackhole_idle"}).Draw(rt, "scenario"),
+			Scenario: rapid.SampledFrom([]string{"long_call", "mixed", "idle_then_call", "stream", "blackhole_pending", "blackhole_idle", "blackhole_fresh_steady"}).Draw(rt, "scenario"),
 			Factor:   float64(rapid.IntRange(1, 30).Draw(rt, "factor10")) / 10}
 		if rapid.Bool().Draw(rt, "serverping") {
 			c.ServerPingMs = int(float64(T) / (2.2 + float64(rapid.IntRange(0, 60).Draw(rt, "spdiv10"))/10))
